@@ -5,6 +5,9 @@
    actions of sm/Heap.tla; all logged fields are bound; E3, E4, W, NoBadFree are evaluated at
    every step.  The unlogged internal action Wipe(b) is inferred from the free-time snapshot:
    a Free line whose snapshot is wiped is preceded by one Wipe step of the machine.
+   Acceptance: TraceDone stutters once every line is consumed, so with TLC's deadlock checking ON
+   (checks/C09.py passes deadlock=True) a line the machine cannot take is reported as a deadlock
+   at that line; POSTCONDITION TraceAccepted is the cheaper count-based cross-check.
    Every call starts with a Reset line (the harness releases what a call leaked after
    reporting it, and a crashed call leaves no CallEnd).
    The set of secret-processing functions comes from the contract table (sm/ErrContract.tla);
